@@ -57,6 +57,9 @@ func TestVerifC06(t *testing.T) {
 						pos, _ := strconv.Atoi(f[0])
 						mask, _ := strconv.Atoi(f[1])
 						if len(z) > 0 {
+							if pos < 0 { // counted from the end: -1 is the last byte (the gzip trailer is the last 8)
+								pos = len(z) - 1 - ((-pos - 1) % len(z))
+							}
 							z[pos%len(z)] ^= byte(mask)
 						}
 					}
